@@ -32,14 +32,21 @@ func keyEmuAxes(big bool) []AxisDesc {
 // without it the alphabet is the one of C08 (octave/semitone/channel actions).
 func keyEmuScenarios(big, withMapping bool) []*Desc {
 	var out []*Desc
-	for _, variant := range []string{"hat", "stick"} {
+	variants := []string{"hat", "stick"}
+	if big {
+		variants = append(variants, "unsigned") // one axis per scenario: each runs to its fixpoint
+	}
+	for _, variant := range variants {
 		d := base("keyemu-"+variant, "interrupt")
 		all := keyEmuAxes(big)
 		var ax []AxisDesc
-		if variant == "hat" {
+		switch variant {
+		case "hat":
 			ax = all[:1]
-		} else {
-			ax = all[1:]
+		case "stick":
+			ax = all[1:2]
+		default:
+			ax = all[2:3]
 		}
 		d.Mappings = []MapDesc{{Name: "M0", Keys: km{K1: {60, 0}}, Axes: ax}}
 		if withMapping {
